@@ -8,14 +8,16 @@ PKG_API = "pkg/api"
 MUTEX_PROCS = "{" + ", ".join('"g%d"' % i for i in range(12)) + "}"
 
 
-def mutex_cfg(cfgname, rounds, timeouts, live=True, regrants=1, renew=False):
+def mutex_cfg(cfgname, rounds, timeouts, live=True, regrants=1, renew=False, local_wait_timeout=False, evict=False):
     sfx = {"A": ("ProcsA", "MembersAB", "HandlesA", "MemOfA", "HandleOfA"),
            "A4": ("ProcsA4", "MembersAB", "HandlesA", "MemOfA", "HandleOfA4"),
            "B": ("ProcsB", "MembersAB", "HandlesB", "MemOfB", "HandleOfB"),
-           "B1": ("ProcsB1", "MembersB1", "HandlesB1", "MemOfB1", "HandleOfB1")}[cfgname]
+           "B1": ("ProcsB1", "MembersB1", "HandlesB1", "MemOfB1", "HandleOfB1"),
+           "B1S": ("ProcsB1", "MembersB1", "HandlesB1S", "MemOfB1S", "HandleOfB1S")}[cfgname]
     txt = ("SPECIFICATION %s\nCONSTANTS\n  Procs <- %s\n  Members <- %s\n  Handles <- %s\n  MemOf <- %s\n  HandleOf <- %s\n"
-           "  MaxRounds = %d\n  MaxTimeouts = %d\n  MaxRegrants = %d\n  RenewSession = %s\n"
-           % (("FairSpec" if live else "Spec",) + sfx + (rounds, timeouts, regrants, "TRUE" if renew else "FALSE")))
+           "  MaxRounds = %d\n  MaxTimeouts = %d\n  MaxRegrants = %d\n  RenewSession = %s\n  LocalWaitTimeout = %s\n  EvictOnUnlock = %s\n"
+           % (("FairSpec" if live else "Spec",) + sfx + (rounds, timeouts, regrants, "TRUE" if renew else "FALSE",
+                                                          "TRUE" if local_wait_timeout else "FALSE", "TRUE" if evict else "FALSE")))
     txt += "INVARIANTS TypeOK Mutex NoResidue QuiescentFree\n"
     if live:
         txt += "PROPERTIES Refines Terminates GrantedUnlessTimeout\n"
@@ -30,7 +32,8 @@ MUTEX_TRACE_CFG = ("SPECIFICATION TSpec\nCONSTANTS\n  Procs = %s\nCONSTRAINT HWM
 
 def run(ctx):
     ctx.cov["rule"] = ("traces = recorded concurrent scenarios of the real cluster mutex (goroutines x handles x members on an embedded "
-                       "etcd, short time-outs, handles obtained per call, a lease re-grant after a failed keep-alive while the lock is held, probes at quiescence) and of the real admin API (concurrent create/update/delete/get "
+                       "etcd, short time-outs - also with the long holder and the contenders that time out on the SAME member -, handles obtained per call "
+                       "next to handles kept across calls on one member, a lease re-grant after a failed keep-alive while the lock is held, probes at quiescence) and of the real admin API (concurrent create/update/delete/get "
                        "against one or two members), each validated by TLC as linearisable against the contract; behaviours = "
                        "TLC-generated sequential admin-API histories replayed on the real server; non-trivial = scenarios with "
                        "contention (a refused Lock, a 409/400/404 reply, or two members)")
@@ -76,17 +79,34 @@ def _mc_mutex(ctx):
     if r.ok or (r.violated not in ("Mutex", "Refines", "NoResidue") and "violated" not in (r.error or "")):
         ctx.inconclusive("ClusterMutex (C): renewing the session after a lease re-grant does not violate Mutex in the model: %s %s" % (r.violated, r.error))
     ctx.notes.append("model (C): a session renewed after a lease re-grant violates %s (schedule: Lock ok, re-grant, cluster.Mutex() by anybody on the member)" % r.violated)
+    # (D) the wait for the process-local lock bounded by the deadline, returning through the code's error path (which releases the
+    # local lock on every error): the model predicts a Mutex violation - decided on the real code by the scenarios T of the trace validation
+    r = ctx.tlc_mc("ClusterMutex_MC", mutex_cfg("B1S", 2, 1, live=False, regrants=0, local_wait_timeout=True), label="mutex (D) time-out while waiting for the process-local lock",
+                   expect_ok=False, count=False, timeout=300, workers=1)
+    if r.ok or (r.violated not in ("Mutex", "Refines", "NoResidue") and "violated" not in (r.error or "")):
+        ctx.inconclusive("ClusterMutex (D): a time-out of the local wait released through the error path does not violate Mutex in the model: %s %s" % (r.violated, r.error))
+    ctx.notes.append("model (D): a deadline that also ends the wait for the process-local lock, with the deferred release on every error, violates %s "
+                     "(schedule: g1 holds, g2 of the same member times out waiting locally, g2 locks again)" % r.violated)
+    # (E) Unlock dropping its handle object from the member's per-name registry: the model predicts a Mutex violation - decided on the
+    # real code by the scenarios R of the trace validation
+    r = ctx.tlc_mc("ClusterMutex_MC", mutex_cfg("B1S", 2, 0, live=False, regrants=0, evict=True), label="mutex (E) Unlock evicts the handle object from the registry",
+                   expect_ok=False, count=False, timeout=300, workers=1)
+    if r.ok or (r.violated not in ("Mutex", "Refines", "NoResidue") and "violated" not in (r.error or "")):
+        ctx.inconclusive("ClusterMutex (E): evicting the handle object at Unlock does not violate Mutex in the model: %s %s" % (r.violated, r.error))
+    ctx.notes.append("model (E): Unlock evicting its handle object from the registry violates %s (schedule: g1 holds, g2 waits on the object, g1 unlocks, "
+                     "g2 holds, g1 asks for the mutex again and locks)" % r.violated)
 
 
 def _tv_mutex(ctx):
     na, nh, nb = (4, 2, 2) if ctx.quick else (30, 20, 4)
     nl = 2 if ctx.quick else 8
     nsec = 1 if ctx.quick else 2
+    nt, nr = (2, 2) if ctx.quick else (10, 10)
     tp = ctx.path("c18_mutex.ndjson")
     ev = None
     for attempt in range(2):
         rc, out = ctx.go_test(PKG_CLUSTER, "^TestVerifC18Mutex$", env={"VERIF_OUT": tp, "VERIF_NA": na, "VERIF_NH": nh, "VERIF_NB": nb, "VERIF_NL": nl,
-                                                                      "VERIF_SECONDARIES": nsec}, timeout=1500)
+                                                                      "VERIF_NT": nt, "VERIF_NR": nr, "VERIF_SECONDARIES": nsec}, timeout=1500)
         ev = ctx.read_ndjson(tp)
         if ev and not any(e.get("ev") == "setup-failed" for e in ev) and rc == 0:
             break
